@@ -97,6 +97,30 @@ def namespace(modname, **extra):
 MUTABLE_CALLS = {"dict", "list", "set", "defaultdict", "OrderedDict", "deque", "Counter", "WeakValueDictionary"}
 
 
+_MUTATORS = {"append", "extend", "insert", "pop", "remove", "clear", "update", "setdefault", "popitem", "add", "discard", "sort",
+             "reverse", "move_to_end", "appendleft", "popleft", "__setitem__", "__delitem__", "difference_update", "intersection_update"}
+
+
+def _module_mutates(tree, name):
+    """Does any code of the module store into / delete from / call a mutating method on / rebind as global the module-level
+    container `name`?  (A one-slot memo written as `_last = [None]` or `_memo = {"key": None}` is non-empty AND mutated: it
+    is mutable state, not a lookup table.)"""
+    import ast
+
+    def is_nm(x):
+        return isinstance(x, ast.Name) and x.id == name
+    for n in ast.walk(tree):
+        if isinstance(n, ast.Global) and name in n.names:
+            return True
+        if isinstance(n, (ast.Subscript,)) and is_nm(n.value) and isinstance(n.ctx, (ast.Store, ast.Del)):
+            return True
+        if isinstance(n, ast.AugAssign) and ((isinstance(n.target, ast.Subscript) and is_nm(n.target.value)) or is_nm(n.target)):
+            return True
+        if isinstance(n, ast.Call) and isinstance(n.func, ast.Attribute) and is_nm(n.func.value) and n.func.attr in _MUTATORS:
+            return True
+    return False
+
+
 def module_level_binding(modname, name):
     """('function'|'class', node) | ('constant', value) | ('mutable', kind) | None for a module-level name."""
     import ast
@@ -111,7 +135,8 @@ def module_level_binding(modname, name):
         elif isinstance(n, ast.AnnAssign) and isinstance(n.target, ast.Name) and n.value is not None:
             targets, val = [n.target.id], n.value
         if name in targets:
-            if isinstance(val, (ast.Dict, ast.List, ast.Set)) and (getattr(val, "keys", None) or getattr(val, "elts", None)):
+            if isinstance(val, (ast.Dict, ast.List, ast.Set)) and (getattr(val, "keys", None) or getattr(val, "elts", None)) \
+                    and not _module_mutates(mod.tree, name):
                 # a NON-EMPTY literal display is a lookup table (defaults, dispatch): it has the contents the module gives
                 # it (memos and registries start empty).  Refactoring R_C13_1 reads the parser defaults from such tables;
                 # starting them empty made every parsed field "differ" -- a false alarm of the C13 / C16 / C08 checks.
